@@ -9,7 +9,7 @@ from ..grammar import NARY, ModelParseError, show
 from ..model import ClassInfo
 from ..printer import (ModelPrinter, Unsupported, extract_printer_table, _Conv,
                        _prec_value)
-from ..rules import handler_summaries
+from ..rules import effective_member, handler_summaries
 from ..summary import NODE, case_split, contains, content, summarize
 
 CC = "pymbolic.mapper.c_code"
@@ -86,6 +86,9 @@ def _c_printer(ctx, model):
         pos, negs = [], []
         for ch in tree[1]:
             rest = _neg_product(ch)
+            if rest is None and facts.get("neg_const") and ch[0] == "Const" \
+                    and type(ch[1]) in (int, float) and ch[1] < 0:
+                rest = ("Const", -ch[1])
             if rest is not None:
                 negs.append(printer.print(rest, facts["neg_prec"]))
             else:
@@ -183,6 +186,30 @@ def _sum_facts(model, table):
         if ps.retval == ("const", None):
             continue
         is_product = minus_first = False
+        # a second, independent case: a negative plain number n is written as
+        # "- <-n>"  (x + -5  ->  x - 5)
+        if ps.retval == ("unop", "USub", NODE):
+            plain_number = negative = False
+            for _, pol0, v0 in ps.conds:
+                if not isinstance(v0, tuple):
+                    continue
+                for v, pol in facts_of(v0, pol0):
+                    if not (pol and isinstance(v, tuple)):
+                        continue
+                    if v[0] == "compare" and v[1] == ("In",) and \
+                            v[2] == ("typeof", NODE) and v[3][0][0] == "lit" and \
+                            set(v[3][0][2]) <= {("global", "int"),
+                                                ("global", "float")}:
+                        plain_number = True
+                    if v[0] == "compare" and v[1] == ("Lt",) and v[2] == NODE \
+                            and v[3] == (("const", 0),):
+                        negative = True
+            if plain_number and negative:
+                facts["neg_const"] = True
+                continue
+            raise AnalysisError("simplifying map_sum: get_neg_product negates "
+                                "its argument under a guard this check cannot "
+                                "read")
         for _, pol0, v0 in ps.conds:
             if not isinstance(v0, tuple):
                 continue
@@ -408,7 +435,7 @@ NAME, TEXT, EXPR = "NAME", "TEXT", "EXPR"
 def _cse_bookkeeping(ctx, model):
     cm = model.cls(f"{CC}:CCodeMapper")
     loc = cm.loc()
-    mem = model.lookup(cm, "map_common_subexpression")
+    mem = effective_member(model, cm, "map_common_subexpression")
     if mem is None or mem.kind != "func" or mem.owner is not cm:
         raise AnalysisError("CCodeMapper.map_common_subexpression not found")
     n = model.nodes.get("CommonSubexpression")
